@@ -51,4 +51,8 @@ def sym_tensor(cx, shape, prefix='T', box=1.0):
         re = cx.real(nm + 'r', -box, box)
         im = cx.real(nm + 'i', -box, box)
         out[idx] = re + 1j * im
+    if cx.mode != 'concrete':
+        from symx.proxy import SymArray
+
+        return out.view(SymArray)
     return out
